@@ -164,7 +164,54 @@ def byref_cycle_recipe(draw):
 
 
 @st.composite
+def byref_chain_recipe(draw):
+    """a ScratchVar handed on by reference through 2..3 routines (each level reads and writes it before and after the
+    inner call), mixed with by-value parameters; main observes the variable afterwards"""
+    depth = draw(st.integers(2, 3))
+    mode = "app"
+    routines = []
+    for lv in range(depth):
+        t = "U"
+        params = [["x", t, "ref"]]
+        if draw(st.booleans()):
+            params.insert(draw(st.integers(0, 1)), ["k", "U", "val"])
+        body = []
+        c1, c2 = draw(st.integers(1, 9)), draw(st.integers(1, 9))
+        body.append(["store", "x", ["nary", "Add", [["nary", "Mul", [["load", "x"], ["int", 10]]], ["int", c1]]]])
+        if lv + 1 < depth:
+            inner_args = []
+            for p in (["x", "U", "ref"], ["k", "U", "val"]):
+                pass
+            body.append(["__call_next__"])
+        if any(p[0] == "k" for p in params) and draw(st.booleans()):
+            body.append(["store", "x", ["nary", "Add", [["load", "x"], ["param", "k"]]]])
+        body.append(["log", ["un", "Itob", ["load", "x"]]])
+        ret = draw(st.sampled_from(["N", "U"]))
+        if ret == "U":
+            body.append(["nary", "Add", [["load", "x"], ["int", c2]]])
+        routines.append({"name": "lvl%d" % lv, "kind": "sub", "params": params, "ret": ret, "locals": {}, "body": ["seq", body]})
+    # wire the calls
+    for lv in range(depth - 1):
+        nxt = routines[lv + 1]
+        args = [["ref", "x"] if p[2] == "ref" else ["int", draw(st.integers(0, 5))] for p in nxt["params"]]
+        call = ["callN", lv + 1, args] if nxt["ret"] == "N" else ["pop", ["call", lv + 1, args]]
+        b = routines[lv]["body"][1]
+        b[b.index(["__call_next__"])] = call
+    slot = draw(st.sampled_from([None, None, 7, 200]))
+    top = routines[0]
+    args = [["ref", "g"] if p[2] == "ref" else ["int", draw(st.integers(0, 5))] for p in top["params"]]
+    call = ["callN", 0, args] if top["ret"] == "N" else ["log", ["un", "Itob", ["call", 0, args]]]
+    main = ["seq", [["store", "g", ["int", draw(st.integers(0, 3))]], ["store", "h", ["int", 77]], call, ["log", ["un", "Itob", ["load", "g"]]], ["log", ["un", "Itob", ["load", "h"]]], ["load", "g"]]]
+    return {"mode": mode, "level": 5, "vars": {"g": {"t": "U", "slot": slot}, "h": {"t": "U", "slot": None}}, "routines": routines, "main": main}
+
+
+@st.composite
 def case_strategy(draw, tier):
+    if draw(st.integers(0, 11)) == 0:
+        recipe = draw(byref_chain_recipe())
+        ctxs = [draw(gen.one_context("app"))]
+        cfgs = [{"version": v} for v in (5, 6, 8, 10)] + [{"version": 10, "frame_pointers": False}, {"version": 9, "scratch_slots": False}]
+        return {"recipe": recipe, "ctxs": [c.to_json() for c in ctxs], "configs": cfgs}
     if draw(st.integers(0, 24)) == 0:
         recipe = draw(byref_cycle_recipe())
         return {"recipe": recipe, "ctxs": [], "configs": [{"version": v} for v in (5, 7, 8, 10)] + [{"version": 9, "frame_pointers": False}], "expect_reject": True}
